@@ -27,6 +27,7 @@ cp /verif/known_findings.json $M/vdir/
 rm -rf $M/vdir/replays; mkdir -p $M/vdir/replays
 # committed regression replays take part as well
 for d in /verif/replays/*/; do id=$(basename $d); mkdir -p $M/vdir/replays/$id; cp $d*.json $M/vdir/replays/$id/ 2>/dev/null; done
+rm -f $M/target/release/vcheck   # never run a binary left over from another patch
 ( cd $M/harness && cargo build --release --offline 2>&1 | grep -E "^error" -A12 | head -40 )
 [ -x $M/target/release/vcheck ] || { echo "build failed"; exit 2; }
 rc=0
